@@ -19,10 +19,10 @@ type View struct {
 	ESeq   int    `json:"eseq"`
 	SPort  int    `json:"sport"`
 	DPort  int    `json:"dport"`
-	Seq    int64  `json:"seq"`
-	Ack    int64  `json:"ack"`
+	Seq    [2]int `json:"seq"` // 32-bit values as [hi16, lo16]: TLC integers are 32-bit signed
+	Ack    [2]int `json:"ack"`
 	Flags  int    `json:"flags"`
-	Sack   []int64 `json:"sack"`
+	Sack   [][2]int `json:"sack"`
 	SackOK bool   `json:"sackperm"`
 	TS     bool   `json:"ts"`
 	ULen   int    `json:"ulen"` // v4: UDP length, v6: IPv6 payload length (the UDPv6 probe identifier)
@@ -34,7 +34,7 @@ type View struct {
 	QIPID  int    `json:"q_ipid"`
 	QSPort int    `json:"q_sport"`
 	QDPort int    `json:"q_dport"`
-	QSeq   int64  `json:"q_seq"`
+	QSeq   [2]int `json:"q_seq"`
 	QEID   int    `json:"q_eid"`
 	QESeq  int    `json:"q_eseq"`
 	QULen  int    `json:"q_ulen"`
@@ -42,9 +42,12 @@ type View struct {
 	Size   int    `json:"size"`
 }
 
+// U32 splits a 32-bit value into 16-bit halves.
+func U32(x uint32) [2]int { return [2]int{int(x >> 16), int(x & 0xffff)} }
+
 // Describe decodes raw IP bytes into a View with the harness's own decoder.
 func Describe(b []byte) View {
-	v := View{Kind: "malformed", Size: len(b), Sack: []int64{}}
+	v := View{Kind: "malformed", Size: len(b), Sack: [][2]int{}}
 	ip, pl, err := ParseIP(b)
 	if err != nil {
 		return v
@@ -70,10 +73,10 @@ func Describe(b []byte) View {
 			return v
 		}
 		v.Kind = "tcp"
-		v.SPort, v.DPort, v.Seq, v.Ack, v.Flags = int(t.SPort), int(t.DPort), int64(t.Seq), int64(t.Ack), int(t.Flags)
+		v.SPort, v.DPort, v.Seq, v.Ack, v.Flags = int(t.SPort), int(t.DPort), U32(t.Seq), U32(t.Ack), int(t.Flags)
 		sl, sp, ts, _, _ := ParseTCPOptions(t.Options)
 		for _, e := range sl {
-			v.Sack = append(v.Sack, int64(e))
+			v.Sack = append(v.Sack, U32(e))
 		}
 		v.SackOK, v.TS = sp, ts
 		v.CsumOK = v.CsumOK && t.CsumOK
@@ -139,16 +142,12 @@ func describeQuote(v *View, v6 bool, body []byte) {
 		return
 	}
 	v.Q = true
-	switch qip.Proto {
-	case 6:
-		v.QSPort, v.QDPort = int(be.Uint16(qpl[0:2])), int(be.Uint16(qpl[2:4]))
-		v.QSeq = int64(be.Uint32(qpl[4:8]))
-	case 17:
-		v.QSPort, v.QDPort = int(be.Uint16(qpl[0:2])), int(be.Uint16(qpl[2:4]))
-		if !v6 {
-			v.QULen = int(be.Uint16(qpl[4:6]))
-		}
-	case 1, 58:
-		v.QEID, v.QESeq = int(be.Uint16(qpl[4:6])), int(be.Uint16(qpl[6:8]))
+	// raw interpretation of the first 8 quoted L4 bytes under every protocol's layout; the TLA+ side
+	// picks the fields that are meaningful for the variant
+	v.QSPort, v.QDPort = int(be.Uint16(qpl[0:2])), int(be.Uint16(qpl[2:4]))
+	v.QSeq = U32(be.Uint32(qpl[4:8]))
+	v.QEID, v.QESeq = int(be.Uint16(qpl[4:6])), int(be.Uint16(qpl[6:8]))
+	if !v6 {
+		v.QULen = int(be.Uint16(qpl[4:6]))
 	}
 }
